@@ -87,6 +87,8 @@ impl ServerTask {
         match result {
             Ok(new_session) => {
                 tracing::warn!("closing session {} for new session {}", id, new_session.id);
+                // the running session was dropped mid-flight: it never saw an error to clean up after
+                self.session.abandon_session();
                 // go to next iteration with a new session
                 Ok(Some(new_session))
             }
